@@ -282,7 +282,7 @@ RunResult run(J const &plan) {
   res.counters["probe.samples_out_of_range"] += out_of_range;
   res.counters["probe.samples_exactly_on_a_bin_edge"] += on_edge;
   res.counters["probe.dimensions_with_observed_boundaries"] += edge_dims;
-  res.counters["probe.restarts"] += restarts;
+  res.counters["probe.restarts"] += restarts; res.counters["fault.stop_and_restart"] += restarts;
   res.counters["probe.file_bins_checked"] += file_bins;
   res.nontrivial = steps_compared > 0 && eligible_in_range > 0;
   res.class_hash = fnv_str(sc.at("template").as_str(), 15);
